@@ -1,5 +1,6 @@
 (* C20 — No loader crashes, hangs or over-allocates on arbitrary input.
-   THIS FILE: the binary knowledge-base stream only (LoadKnowledgeBaseFromReader).
+   THIS FILE: all four loaders - the binary knowledge-base stream (LoadKnowledgeBaseFromReader)
+   first, GRL text / JSON rule text / JSON fact text in the blocks marked "C20 begin ... end".
 
    "For arbitrary bytes presented as GRL text, JSON rule text, JSON fact text or binary
    knowledge-base stream, the corresponding loader returns a result or an error using
@@ -21,7 +22,53 @@
    from the stream (except the guarded one of the constant rebuild) is anchored to the
    source in proofs/AnchorsCodec.v (anchor_no_length_driven_make, anchor_raw_reads). *)
 From Grule Require Import Base CodecPrim Codec CodecProofs.
+(* ---- C20 begin: GRL text, JSON rule text, JSON fact text ----
+   The theorems below are about the loader MODELS; what is outside them is said plainly.
+
+   GRL text.  Lexer / parser / builder model (coq/model/Lexer.v, Parser.v): total
+   functions (termination by construction); never Panic; the lexer's fuel and the parser's
+   nesting fuel never run out (every larger fuel gives the same answer, so "None" is always
+   a genuine lexical / syntax error); tokens <= characters; tree nodes <= tokens.
+   REFUTED: the memory clause for the text the listener stores in every node of the tree
+   (x.GrlText = ctx.GetText(): finding D23, [stored_conditions]): no bound K * length + K'.
+   Outside the model: the generated ANTLR lexer / parser and its runtime (which recurses on
+   the goroutine stack: finding D24), bytes >= 128.
+
+   JSON rule text.  Translator model (coq/model/JsonRule.v [translate]) over the DECODED
+   JSON value: structural recursion (no fuel, any nesting depth; the 1024-level error of
+   buildExpressionEx is an ordinary error), never Panic, output at most 16 * size + 64
+   characters, and the builder model does not panic on that output.  Outside the model:
+   encoding/json (which also caps the nesting at 10 000 levels), non-integer numbers,
+   bytes >= 128.
+
+   JSON fact text.  The value tree behind a JSONValueNode, over the decoded value: total,
+   size-preserving; DataContext.AddJSON modelled as an update that always succeeds.
+   encoding/json is outside the model.
+
+   Time and resident memory have no counterpart in Coq; together with everything listed as
+   outside they are covered by the sandboxed runs of tools/harness/c20*.go (fuzzing /
+   differential testing: supporting evidence, not proof). *)
+From Grule Require Import Syntax Lexer Parser JsonRule LoaderProofs.
+(* ---- C20 end ---- *)
 
 Theorem C20_binary : C20_binary_statement.
 Proof. exact C20_binary_proved. Qed.
 Print Assumptions C20_binary.
+
+(* ---- C20 begin: GRL text, JSON rule text, JSON fact text ---- *)
+Theorem C20_grl_model : C20_grl_model_statement.
+Proof. exact C20_grl_model_proved. Qed.
+Print Assumptions C20_grl_model.
+
+Theorem C20_grl_stored_text_refuted : C20_grl_stored_text_refuted_statement.
+Proof. exact C20_grl_stored_text_refuted_proved. Qed.
+Print Assumptions C20_grl_stored_text_refuted.
+
+Theorem C20_jsonrule_model : C20_jsonrule_model_statement.
+Proof. exact C20_jsonrule_model_proved. Qed.
+Print Assumptions C20_jsonrule_model.
+
+Theorem C20_jsonfact_model : C20_jsonfact_model_statement.
+Proof. exact C20_jsonfact_model_proved. Qed.
+Print Assumptions C20_jsonfact_model.
+(* ---- C20 end ---- *)
